@@ -5,6 +5,8 @@ EXTENDS ThriftDOM
 \* scalar kinds as the harness names them -> (type code, payload width)
 KindT(k) == CASE k = "bool" -> T_BOOL [] k = "byte" -> T_I8 [] k = "i16" -> T_I16 [] k = "i32" -> T_I32
               [] k = "i64" -> T_I64 [] k = "double" -> T_DBL [] k = "string" -> T_STR [] k = "binary" -> T_STR
+              \* WriteInt / ReadInt: the integer writer and reader that take the type code as an argument
+              [] k = "int8" -> T_I8 [] k = "int16" -> T_I16 [] k = "int32" -> T_I32 [] k = "int64" -> T_I64
 \* val: fixed kinds = 8 bytes big-endian (two's complement / IEEE bits); string kinds = content bytes
 ScalarOf(k, val) == LET t == KindT(k) IN
                     IF t = T_STR THEN Scalar(T_STR, val)
@@ -13,7 +15,7 @@ ScalarOf(k, val) == LET t == KindT(k) IN
 \* the value a reader must report for a scalar (8-byte form)
 ReadBack(k, v) == IF v.t = T_STR THEN v.b
                   ELSE IF v.t = T_DBL \/ v.t = T_BOOL THEN ZeroExt8(v.b)
-                  ELSE IF v.t = T_I8 /\ k = "byte" THEN ZeroExt8(v.b)          \* Go byte is unsigned
+                  ELSE IF v.t = T_I8 /\ k \in {"byte", "int8"} THEN ZeroExt8(v.b)          \* Go byte is unsigned (ReadInt widens it as such)
                   ELSE SignExt8(v.b)
 
 FieldBegin(t, id) == <<t>> \o BE16(id)
